@@ -107,8 +107,10 @@ pub fn phase_keepalive(e: &E2e, addrs: &[u8], watch_ms: u64) -> CheckResult {
     std::thread::sleep(Duration::from_millis(watch_ms));
     let lg = e.log.lock().unwrap();
     for a in addrs {
-        let ts: Vec<u64> = lg.keepalives.iter().filter(|k| k.0 == *a && k.1 >= t0.saturating_sub(1200)).map(|k| k.1).collect();
-        vensure!(!ts.is_empty(), "e2e-keepalive-gap", "real event loop: link {a} sent no keepalive in {} ms", watch_ms + 1200);
+        // a keepalive goes out when >= 1000 ms have passed since the last one, checked at 1000 ms ticks: a tick that
+        // measures 999 ms skips, so gaps of two periods are normal; the look-back window covers two periods and slack
+        let ts: Vec<u64> = lg.keepalives.iter().filter(|k| k.0 == *a && k.1 >= t0.saturating_sub(2400)).map(|k| k.1).collect();
+        vensure!(!ts.is_empty(), "e2e-keepalive-gap", "real event loop: link {a} sent no keepalive in {} ms", watch_ms + 2400);
         for w in ts.windows(2) {
             vensure!(w[1] - w[0] <= 2600, "e2e-keepalive-gap", "real event loop: link {a} keepalive gap {} ms", w[1] - w[0]);
         }
@@ -122,7 +124,7 @@ pub fn phase_reload(e: &E2e, keep: &[u8], remove: u8, add: u8, next_seq: u32) ->
     std::fs::write(&e.ips_path, "not-an-address\n\n").unwrap();
     e.sighup();
     std::thread::sleep(Duration::from_millis(2300));
-    phase_keepalive(e, &[keep[0], remove], 100).map_err(|v| Violation { sig: "e2e-refused-reload-applied".into(), msg: format!("after a refused reload: {}", v.msg) })?;
+    phase_keepalive(e, &[keep[0], remove], 300).map_err(|v| Violation { sig: "e2e-refused-reload-applied".into(), msg: format!("after a refused reload: {}", v.msg) })?;
     // 2. the real reload: drop `remove`, add `add`, with a repeated line and a garbage line
     let mut list: Vec<u8> = keep.to_vec();
     list.push(add);
@@ -302,40 +304,60 @@ pub fn run(ctx: &Ctx, phase: Phase, scenarios: usize) {
         let base = ((z >> 8) % 20) as u8;
         let addrs: Vec<u8> = (0..n_links as u8).map(|i| base + i).collect();
         let classic = (z >> 16) & 1 == 1;
-        let cfg = DynamicConfig::from_cli(if classic { srtla_core::SchedulingMode::Classic } else { srtla_core::SchedulingMode::Enhanced }, (z >> 17) & 1 == 1, (z >> 18) & 1 == 1, 32, 3000, 5000);
-        let Some(e) = E2e::start(&addrs, cfg, Duration::from_secs(20)) else {
-            skipped += 1;
-            notes.push(format!("scenario {k}: start-up did not complete within 20 s (inconclusive, skipped)"));
-            continue;
+        // one attempt of the scenario; None = could not start (inconclusive)
+        let attempt = |notes: &mut Vec<String>| -> Option<CheckResult> {
+            let cfg = DynamicConfig::from_cli(if classic { srtla_core::SchedulingMode::Classic } else { srtla_core::SchedulingMode::Enhanced }, (z >> 17) & 1 == 1, (z >> 18) & 1 == 1, 32, 3000, 5000);
+            let Some(e) = E2e::start(&addrs, cfg, Duration::from_secs(20)) else {
+                notes.push(format!("scenario {k}: start-up did not complete within 20 s (inconclusive, skipped)"));
+                return None;
+            };
+            let r: CheckResult = match phase {
+                Phase::Uplink => phase_uplink(&e, 1000, 1500 + (z % 1500) as u32, [188usize, 1316, 24, 700][(z >> 20) as usize % 4]).and_then(|_| phase_uplink(&e, 10_000, 600, 1316)),
+                // the client address becomes known with the first client datagram
+                Phase::Relay => phase_uplink(&e, 1000, 60, 300).and_then(|_| phase_relay(&e, addrs[0], 150 + (z % 200) as u32)).and_then(|_| phase_relay(&e, addrs[n_links - 1], 70)),
+                Phase::Keepalive => phase_keepalive(&e, &addrs, 5500),
+                Phase::Reload => {
+                    let keep: Vec<u8> = addrs[..n_links - 1].to_vec();
+                    phase_uplink(&e, 1000, 300, 300).and_then(|_| phase_reload(&e, &keep, addrs[n_links - 1], base + 30, 5000))
+                }
+                Phase::Control => {
+                    let mut lines = Vec::new();
+                    let mut runner = proptest::test_runner::TestRunner::new(proptest::test_runner::Config {
+                        rng_seed: proptest::test_runner::RngSeed::Fixed(z),
+                        rng_algorithm: proptest::test_runner::RngAlgorithm::ChaCha,
+                        failure_persistence: None,
+                        ..Default::default()
+                    });
+                    use proptest::strategy::{Strategy, ValueTree};
+                    for _ in 0..400 {
+                        if let Ok(t) = crate::props::c18::any_line_pub().new_tree(&mut runner) {
+                            lines.push(t.current());
+                        }
+                    }
+                    phase_control(&e, &lines)
+                }
+                Phase::Subscription => phase_subscription(&e, &addrs),
+            };
+            drop(e);
+            Some(r)
         };
-        let r: CheckResult = match phase {
-            Phase::Uplink => phase_uplink(&e, 1000, 1500 + (z % 1500) as u32, [188usize, 1316, 24, 700][(z >> 20) as usize % 4]).and_then(|_| phase_uplink(&e, 10_000, 600, 1316)),
-            // the client address becomes known with the first client datagram
-            Phase::Relay => phase_uplink(&e, 1000, 60, 300).and_then(|_| phase_relay(&e, addrs[0], 150 + (z % 200) as u32)).and_then(|_| phase_relay(&e, addrs[n_links - 1], 70)),
-            Phase::Keepalive => phase_keepalive(&e, &addrs, 5500),
-            Phase::Reload => {
-                let keep: Vec<u8> = addrs[..n_links - 1].to_vec();
-                phase_uplink(&e, 1000, 300, 300).and_then(|_| phase_reload(&e, &keep, addrs[n_links - 1], base + 30, 5000))
+        let r = match attempt(&mut notes) {
+            None => {
+                skipped += 1;
+                continue;
             }
-            Phase::Control => {
-                let mut lines = Vec::new();
-                let mut runner = proptest::test_runner::TestRunner::new(proptest::test_runner::Config {
-                    rng_seed: proptest::test_runner::RngSeed::Fixed(z),
-                    rng_algorithm: proptest::test_runner::RngAlgorithm::ChaCha,
-                    failure_persistence: None,
-                    ..Default::default()
-                });
-                use proptest::strategy::{Strategy, ValueTree};
-                for _ in 0..400 {
-                    if let Ok(t) = crate::props::c18::any_line_pub().new_tree(&mut runner) {
-                        lines.push(t.current());
+            Some(Ok(())) => Ok(()),
+            Some(Err(first)) => {
+                // real time is involved: a failure counts only if the same scenario fails again
+                match attempt(&mut notes) {
+                    Some(Err(second)) => Err(Violation { sig: second.sig, msg: format!("{} (reproduced; first run: {})", second.msg, first.msg) }),
+                    _ => {
+                        notes.push(format!("scenario {k}: a failure did not reproduce on an identical second run and was discarded as inconclusive: {}", first.msg));
+                        Ok(())
                     }
                 }
-                phase_control(&e, &lines)
             }
-            Phase::Subscription => phase_subscription(&e, &addrs),
         };
-        drop(e);
         done += 1;
         if let Err(v) = r {
             let case = json!({"e2e": format!("{phase:?}"), "scenario": k, "links": addrs, "classic": classic});
